@@ -11,7 +11,10 @@
 //     walk (`return false`), the first match stops it (`return true`);
 //   - allocateIP (Bind): owned addresses are reused, only the range lists without an owned address are allocated, and
 //     the owned addresses are queried again afterwards;
-//   - toFloatingIPInfo: mask, vlan and gateway come from the pool of the address (`fip.pool`).
+//   - toFloatingIPInfo: mask, vlan and gateway come from the pool of the address (`fip.pool`);
+//   - ByKeyAndIPRanges without ranges returns the key's addresses sorted ascending;
+//   - updateConfigMap drops the node-subnet cache after a configuration change (the deferred closure reads the variable
+//     the result of ensureIPAMConf is assigned to).
 //
 // Purely syntactic (go/ast on single functions, conditions compared as printed text).  Every shape it does not know
 // makes it fail loudly (non-zero exit), so a rewrite of these places breaks the check until a human has looked.
@@ -20,6 +23,7 @@ package main
 import (
 	"fmt"
 	"go/ast"
+	"go/token"
 	"strings"
 
 	"factgen/fg"
@@ -29,6 +33,7 @@ const (
 	ipamFile   = "pkg/ipam/floatingip/ipam_crd.go"
 	filterFile = "pkg/ipam/schedulerplugin/filter.go"
 	bindFile   = "pkg/ipam/schedulerplugin/bind.go"
+	pluginFile = "pkg/ipam/schedulerplugin/floatingip_plugin.go"
 )
 
 // ifsIn returns every if statement below n, in source order.
@@ -394,6 +399,58 @@ func gen(repo string) (map[string]string, error) {
 		}
 	}
 	fmt.Fprintf(&b, "/-- ByKeyAndIPRanges(key, nil): the addresses of the key are sorted ascending (by IPToInt) after the map loop, so\n    `ipInfos[0]` in getSubnet and `ipInfos[:1]` in allocateIP are the same, lowest, address; false = Go map order -/\ndef byKeyNoRangesSorted : Bool := %s\n\n", fg.LeanBool(sortAt > loopAt))
+
+	// ---- updateConfigMap: a configuration reload drops the node name -> node subnet cache
+	pl, err := fg.ParseFile(repo, pluginFile)
+	if err != nil {
+		return nil, err
+	}
+	ucm, err := pl.Fn("FloatingIPPlugin", "updateConfigMap")
+	if err != nil {
+		return nil, err
+	}
+	outerVar := false // `var updated bool` / `updated, err := …` at the top level of the function body
+	sameVar := false  // the result of ensureIPAMConf is stored in that variable (no shadowing `:=` in an inner scope)
+	found := false
+	clears := false
+	for _, st := range ucm.Body.List {
+		switch x := st.(type) {
+		case *ast.DeclStmt:
+			if norm(pl.Src(x)) == "var updated bool" {
+				outerVar = true
+			}
+		case *ast.AssignStmt:
+			if strings.Contains(pl.Src(x), "p.ensureIPAMConf(") && len(x.Lhs) > 0 && pl.Src(x.Lhs[0]) == "updated" {
+				found = true
+				if x.Tok == token.DEFINE {
+					outerVar, sameVar = true, true
+				} else {
+					sameVar = true
+				}
+			}
+		case *ast.IfStmt:
+			if as, ok := x.Init.(*ast.AssignStmt); ok && strings.Contains(pl.Src(as), "p.ensureIPAMConf(") &&
+				len(as.Lhs) > 0 && pl.Src(as.Lhs[0]) == "updated" {
+				found = true
+				sameVar = as.Tok == token.ASSIGN // `:=` in the if-header declares a NEW variable that shadows the outer one
+			}
+		case *ast.DeferStmt:
+			if fl, ok := x.Call.Fun.(*ast.FuncLit); ok {
+				t := norm(pl.Src(fl.Body))
+				if strings.Contains(t, "p.nodeSubnet = map[string]*net.IPNet{}") {
+					clears = strings.HasPrefix(t, "{ if !updated { return }") && strings.Contains(t, "p.nodeSubnetLock.Lock()") &&
+						strings.Index(t, "p.nodeSubnetLock.Lock()") < strings.Index(t, "p.nodeSubnet = map[string]*net.IPNet{}")
+				}
+			}
+		}
+	}
+	if !found {
+		return nil, fmt.Errorf("%s: updateConfigMap: the call `updated, err … p.ensureIPAMConf(…)` was not found at statement level", pluginFile)
+	}
+	if !strings.Contains(norm(pl.Src(ucm.Body)), "p.nodeSubnet = map[string]*net.IPNet{}") {
+		return nil, fmt.Errorf("%s: updateConfigMap no longer replaces p.nodeSubnet", pluginFile)
+	}
+	fmt.Fprintf(&b, "/-- updateConfigMap: after a configuration change the node name -> node subnet cache is replaced by an empty map\n    (under nodeSubnetLock) by a deferred closure that reads the SAME variable `updated` the result of ensureIPAMConf is\n    stored in (an assignment, not a shadowing `:=`); false = the cache survives a reload -/\ndef reloadClearsNodeSubnetCache : Bool := %s\n\n", fg.LeanBool(outerVar && sameVar && clears))
 
 	// ---- toFloatingIPInfo
 	ti, err := ip.Fn("crdIpam", "toFloatingIPInfo")
